@@ -15,13 +15,18 @@
  *
  *  strict mode  W  wait unconditionally            S  raise_strict (spins until it released
  *               total W == total S; no plain raise      exactly one waiter)
+ *                                                   s  the same after yielding until a waiter
+ *                                                      is listed
+ *     raise_strict busy-waits without yielding its kernel thread: ONE fiber raises in strict
+ *     mode, and on a single kernel thread it uses `s` only.
  *
- *  y = yield in both.  */
+ *  y = yield in both; z = final rendez-vous (appended to every fiber by the generator).  */
 #include "rtcommon.h"
 #include "fiber_signal.h"
 
 static fiber_multi_signal_t ms;
 static volatile long tokens;
+static volatile int arrived;
 
 static int try_take(void) {
   long v = __atomic_load_n(&tokens, __ATOMIC_ACQUIRE);
@@ -63,6 +68,16 @@ static void do_op(int t, const char* op) {
       fiber_multi_signal_wait(&ms);
       vr_note("ret wait");
       break;
+    case 's':
+      /* polite strict raise: raise_strict busy-waits WITHOUT yielding the kernel thread, so
+       * first yield until a waiter is listed (only one fiber raises in strict mode, so the
+       * waiter seen here cannot be taken by anybody else) */
+      while (1) {
+        mpsc_fifo_node_t* h = __atomic_load_n(&ms.data.head, __ATOMIC_ACQUIRE);
+        if (h && h != FIBER_MULTI_SIGNAL_RAISED) break;
+        fiber_yield();
+      }
+      /* fall through */
     case 'S':
       vr_note("call strict");
       fiber_multi_signal_raise_strict(&ms);
@@ -70,6 +85,17 @@ static void do_op(int t, const char* op) {
       break;
     case 'y':
       fiber_yield();
+      break;
+    case 'z':
+      /* end-of-script rendez-vous: keeps every fiber (and its list node) alive until all
+       * raises are over — fiber_multi_signal_raise reads head->next of a possibly stale
+       * head (the TODO in fiber_signal.h); the documented assumption is that fibers are
+       * not freed meanwhile.  Not part of the test: unregistered counter. */
+      __sync_fetch_and_add(&arrived, 1);
+      while (arrived < vh_script.nfibers) {
+        fiber_yield();
+        vr_relax();
+      }
       break;
   }
   (void)t;
